@@ -11,29 +11,29 @@ Section Proofs2.
   Notation query := (@query F).
 
   (** ** lengths, with or without random draws *)
-  Lemma paint_slots_length (f : feature) q regs : paint_len f -> forall out t,
+  Lemma paint_slots_length (f : feature) q wt regs : paint_len f -> forall out t,
     regs_good (length out) regs ->
-    length (fst (fold_left (paint_slot f q) regs (out, t))) = length out.
+    length (fst (fold_left (paint_slot f q wt) regs (out, t))) = length out.
   Proof.
     intros Hf. induction regs as [|pe r IH]; intros out t G; [reflexivity|].
     cbn [regs_good] in G. destruct G as (G1 & G2 & G3). cbn [fold_left].
     unfold paint_slot at 2. destruct pe as [p off]. cbn [fst snd] in *.
-    destruct (ft_paint f q p t (slice off (width p) out)) as [b t1] eqn:E.
+    destruct (ft_paint f q wt p t (slice off (width p) out)) as [b t1] eqn:E.
     assert (L : length b = width p).
-    { replace b with (fst (ft_paint f q p t (slice off (width p) out))) by now rewrite E.
+    { replace b with (fst (ft_paint f q wt p t (slice off (width p) out))) by now rewrite E.
       apply Hf, slice_length, G1. }
     rewrite IH; rewrite blit_length; rewrite ?L; auto.
   Qed.
 
-  Lemma features_length fs q regs : Forall paint_len fs -> forall (out : list F) t,
+  Lemma features_length fs q wt regs : Forall paint_len fs -> forall (out : list F) t,
     regs_good (length out) regs ->
-    length (fst (fold_left (feature_apply q regs) fs (out, t))) = length out.
+    length (fst (fold_left (feature_apply q wt regs) fs (out, t))) = length out.
   Proof.
     intros H. induction H as [|f fs Hf Hfs IH]; intros out t G; [reflexivity|].
     cbn [fold_left]. unfold feature_apply at 2. destruct (ft_covers f q).
-    - destruct (fold_left (paint_slot f q) regs (out, t)) as [o1 t1] eqn:E.
+    - destruct (fold_left (paint_slot f q wt) regs (out, t)) as [o1 t1] eqn:E.
       assert (L : length o1 = length out).
-      { replace o1 with (fst (fold_left (paint_slot f q) regs (out, t))) by now rewrite E.
+      { replace o1 with (fst (fold_left (paint_slot f q wt) regs (out, t))) by now rewrite E.
         apply paint_slots_length; auto. }
       rewrite IH; rewrite L; auto.
     - apply IH, G.
@@ -42,7 +42,7 @@ Section Proofs2.
   Theorem properties3d_length (w : world) pos depth ps t r t' :
     world_ok w -> properties3d w pos depth ps t = Ok (r, t') -> length r = output_size ps.
   Proof.
-    intros WO. unfold properties3d. rewrite init_from_eq. cbn [length app].
+    intros WO. unfold properties3d, properties_at. cbn [mk_query q_depth q_g]. rewrite init_from_eq. cbn [length app].
     destruct (existsb _ _); [discriminate|]. intros E. inversion E as [E']; clear E.
     pose proof (f_equal fst E') as X. cbn [fst] in X. rewrite <- X.
     rewrite features_length; [apply init_out_length | exact WO |].
@@ -50,21 +50,21 @@ Section Proofs2.
   Qed.
 
   (** ** without random models the tape position is irrelevant and unchanged *)
-  Definition features_out (fs : list feature) q regs (out : list F) : list F :=
-    fold_left (fun o f => if ft_covers f q then blockwise (paint0 f q) regs o else o) fs out.
+  Definition features_out (fs : list feature) q wt regs (out : list F) : list F :=
+    fold_left (fun o f => if ft_covers f q then blockwise (paint0 f q wt) regs o else o) fs out.
 
-  Lemma features_fold_out fs q regs : Forall no_random fs -> forall out t,
-    fold_left (feature_apply q regs) fs (out, t) = (features_out fs q regs out, t).
+  Lemma features_fold_out fs q wt regs : Forall no_random fs -> forall out t,
+    fold_left (feature_apply q wt regs) fs (out, t) = (features_out fs q wt regs out, t).
   Proof.
     intros H. induction H as [|f fs Hf Hfs IH]; intros out t; [reflexivity|].
-    cbn [fold_left]. rewrite (feature_apply_eq f q regs out t Hf). apply IH.
+    cbn [fold_left]. rewrite (feature_apply_eq f q wt regs out t Hf). apply IH.
   Qed.
 
   Theorem properties3d_tape_irrelevant (w : world) pos depth ps t r t' :
     world_no_random w -> properties3d w pos depth ps t = Ok (r, t') ->
     t' = t /\ forall t2, properties3d w pos depth ps t2 = Ok (r, t2).
   Proof.
-    intros WN. unfold properties3d. rewrite init_from_eq. cbn [length app].
+    intros WN. unfold properties3d, properties_at. cbn [mk_query q_depth q_g]. rewrite init_from_eq. cbn [length app].
     destruct (existsb _ _); [discriminate|]. rewrite features_fold_out by exact WN.
     intros E. inversion E; subst. split; [reflexivity|]. intros t2.
     rewrite features_fold_out by exact WN. reflexivity.
@@ -102,10 +102,10 @@ Section Proofs2.
     destruct pe as [p off]. apply in_combine_l in I. exact I.
   Qed.
 
-  Lemma throws_single (w : world) q d ps p :
+  Lemma throws_single (w : world) q wt d ps p :
     In p ps ->
-    existsb (fun f => ft_cov_err f q || (ft_covers f q && existsb (fun pe => ft_paint_err f q (fst pe)) (init_regs w d 0 [p]))) (w_features w) = true ->
-    existsb (fun f => ft_cov_err f q || (ft_covers f q && existsb (fun pe => ft_paint_err f q (fst pe)) (init_regs w d 0 ps))) (w_features w) = true.
+    existsb (fun f => ft_cov_err f q || (ft_covers f q && existsb (fun pe => ft_paint_err f q wt (fst pe)) (init_regs w d 0 [p]))) (w_features w) = true ->
+    existsb (fun f => ft_cov_err f q || (ft_covers f q && existsb (fun pe => ft_paint_err f q wt (fst pe)) (init_regs w d 0 ps))) (w_features w) = true.
   Proof.
     intros I H. apply existsb_exists in H. destruct H as (f & Hf & H). apply existsb_exists. exists f. split; [exact Hf|].
     apply orb_true_iff in H. destruct H as [H|H]; [now rewrite H|].
@@ -134,9 +134,9 @@ Section Proofs2.
       specialize (B1 0 p eq_refl). cbn [firstn] in B1. unfold output_size at 1 in B1. cbn [fold_left] in B1.
       rewrite output_size_cons in L1. unfold output_size in L1. cbn [fold_left] in L1.
       unfold slice in B1. cbn [skipn] in B1. rewrite firstn_all2 in B1 by lia. now rewrite B1.
-    - exfalso. unfold properties3d in E, E1. rewrite init_from_eq in E, E1. cbn [length app] in E, E1.
+    - exfalso. unfold properties3d, properties_at in E, E1. cbn [mk_query q_depth q_g] in E, E1. rewrite init_from_eq in E, E1. cbn [length app] in E, E1.
       destruct (existsb _ (w_features w)) eqn:X in E1.
-      + apply (throws_single w _ depth ps p (nth_error_In _ _ Hp)) in X. rewrite X in E. discriminate.
+      + apply (throws_single w _ _ depth ps p (nth_error_In _ _ Hp)) in X. rewrite X in E. discriminate.
       + discriminate.
   Qed.
 
@@ -237,8 +237,8 @@ Section Proofs2.
   Qed.
 
   (** ** background: no feature covers the point *)
-  Lemma features_none_cover fs (q : query) regs st :
-    Forall (fun f => ft_covers f q = false) fs -> fold_left (feature_apply q regs) fs st = st.
+  Lemma features_none_cover fs (q : query) wt regs st :
+    Forall (fun f => ft_covers f q = false) fs -> fold_left (feature_apply q wt regs) fs st = st.
   Proof.
     intros H. revert st. induction H as [|f fs Hf Hfs IH]; intros st; [reflexivity|].
     cbn [fold_left]. unfold feature_apply at 2. rewrite Hf. apply IH.
@@ -249,24 +249,24 @@ Section Proofs2.
     properties3d w pos depth ps t = Ok (r, t') ->
     r = init_out w (w_gravity w) depth ps /\ t' = t.
   Proof.
-    intros H. unfold properties3d. rewrite init_from_eq. cbn [length app].
+    intros H. unfold properties3d, properties_at. cbn [mk_query q_depth q_g]. rewrite init_from_eq. cbn [length app].
     destruct (existsb _ _); [discriminate|]. rewrite features_none_cover by exact H.
     intros E. inversion E; subst. split; reflexivity.
   Qed.
 
   (** ** deleting a feature that does not contain the point changes nothing *)
-  Definition eval_features (fs : list feature) (q : query) regs st := fold_left (feature_apply q regs) fs st.
+  Definition eval_features (fs : list feature) (q : query) (wt : @wtemp F) regs st := fold_left (feature_apply q wt regs) fs st.
 
-  Lemma eval_delete fs1 f fs2 (q : query) regs st :
+  Lemma eval_delete fs1 f fs2 (q : query) wt regs st :
     ft_covers f q = false ->
-    eval_features (fs1 ++ f :: fs2) q regs st = eval_features (fs1 ++ fs2) q regs st.
+    eval_features (fs1 ++ f :: fs2) q wt regs st = eval_features (fs1 ++ fs2) q wt regs st.
   Proof.
     intros H. unfold eval_features. rewrite !fold_left_app. cbn [fold_left].
     unfold feature_apply at 2. rewrite H. reflexivity.
   Qed.
 
-  Lemma eval_filter fs (q : query) regs : forall st,
-    eval_features fs q regs st = eval_features (filter (fun f => ft_covers f q) fs) q regs st.
+  Lemma eval_filter fs (q : query) wt regs : forall st,
+    eval_features fs q wt regs st = eval_features (filter (fun f => ft_covers f q) fs) q wt regs st.
   Proof.
     induction fs as [|f fs IH]; intros st; [reflexivity|]. cbn [filter].
     destruct (ft_covers f q) eqn:C; unfold eval_features in *; cbn [fold_left].
@@ -276,19 +276,19 @@ Section Proofs2.
 
   (** ** the tag is that of the last covering feature *)
   Definition paints_tag (f : feature) : Prop :=
-    forall q t blk, ft_paint f q PTag t blk = ([ft_tag f], t).
+    forall q wt t blk, ft_paint f q wt PTag t blk = ([ft_tag f], t).
 
   Definition last_covering (fs : list feature) (q : query) : option feature :=
     fold_left (fun acc f => if ft_covers f q then Some f else acc) fs None.
 
-  Lemma block_eval_tag fs (q : query) : Forall paints_tag fs -> forall blk,
-    block_eval fs q PTag blk =
+  Lemma block_eval_tag fs (q : query) wt : Forall paints_tag fs -> forall blk,
+    block_eval fs q wt PTag blk =
     match last_covering fs q with Some f => [ft_tag f] | None => blk end.
   Proof.
     induction fs as [|f fs IH] using rev_ind; intros H blk; [reflexivity|].
     apply Forall_app in H. destruct H as [H1 H2]. inversion H2 as [|x l Hf _]; subst.
     unfold block_eval, last_covering. rewrite !fold_left_app. cbn [fold_left].
-    fold (block_eval fs q PTag blk). fold (last_covering fs q).
+    fold (block_eval fs q wt PTag blk). fold (last_covering fs q).
     destruct (ft_covers f q).
     - unfold paint0. rewrite Hf. reflexivity.
     - apply IH, H1.
